@@ -1,7 +1,7 @@
 (** * Concrete objects for the non-vacuity examples of Props/C16_scalar.v and Props/C07_mask.v *)
 Require Import List ZArith QArith Bool Lia.
 Require Import PV.NOF.Gauss PV.NOF.Coeff PV.NOF.Fock PV.NOF.FockLemmas PV.NOF.LinComb PV.NOF.Model
-  PV.NOF.NofProof PV.NOF.NofProof2 PV.NOF.SolveScalar PV.NOF.ScalarProof PV.NOF.Mask PV.NOF.C08Lemmas.
+  PV.NOF.NofProof PV.NOF.NofProof2 PV.NOF.SolveScalar PV.NOF.ScalarProof PV.NOF.ScalarDiag PV.NOF.Mask PV.NOF.C08Lemmas.
 Import ListNotations.
 Local Open Scope Z_scope.
 
@@ -25,6 +25,18 @@ Lemma c16_ex_nonvacuous :
 Proof.
   split; [exact ex_sig|]. split; [exact ex_wf_x|]. split; [exact ex_bok2|]. split; [exact ex_denom_ok|].
   intros H. specialize (H [4; -2; 1; 0; 1]). vm_compute in H. destruct H as [H _]. discriminate H.
+Qed.
+
+Lemma ex_creal : creal ex_hi.
+Proof. intros M. unfold ex_hi. cbn [cval]. rewrite gconj_add, gconj_mul, !gconj_gz. reflexivity. Qed.
+Lemma c16_ex_diag_nonvacuous :
+  creal ex_hi /\ denom_ok ex_ks ex_hi ex_hi (yneg ex_x) ex_n2 /\ denom_ok_adj ex_ks ex_hi (yneg ex_x) ex_n2 /\
+  ~ lc_eq (den ex_ks (yneg ex_x) ex_n2) [].
+Proof.
+  split; [exact ex_creal|]. split; [|split].
+  - intros t [Ht|[]]; subst t; cbn [fst]. right. intros H. vm_compute in H. destruct H as [H _]. discriminate H.
+  - intros t [Ht|[]]; subst t; cbn [fst]. left. vm_compute. split; reflexivity.
+  - intros H. specialize (H [4; -2; 1; 0; 1]). vm_compute in H. destruct H as [H _]. discriminate H.
 Qed.
 
 Definition ex_conds : list (list pat) :=
